@@ -16,3 +16,23 @@ package aggregations
 //@   pure
 //@   safe
 //@ end
+
+// C04, writer side of the slot layout read by
+// blockresults.(*GroupByBuckets).updateEValFromRunningBuckets: a range (and an
+// earliest/latest) measure without eval occupies TWO consecutive entries of the
+// reverse index — first the min (value) statistic, then the max (timestamp)
+// statistic — which point at two consecutive internal statistics.
+//@ func AddMeasureAggInRunningStatsForRange
+//@   props C04
+//@   requires m != nil && allReverseIndex != nil && allConvertedMeasureOps != nil && colToIdx != nil
+//@   requires [index-lists-do-not-share-storage] forallkey(k, string, disjoint(colToIdx[k], *allReverseIndex))
+//@   ensures [two-slots-min-then-max] implies(result1 == nil, result0 == idx + 2 && len(*allReverseIndex) == old(len(*allReverseIndex)) + 2 && (*allReverseIndex)[old(len(*allReverseIndex))] == idx && (*allReverseIndex)[old(len(*allReverseIndex)) + 1] == idx + 1)
+//@   ensures [two-statistics-min-then-max] implies(result1 == nil, len(*allConvertedMeasureOps) == old(len(*allConvertedMeasureOps)) + 2 && (*allConvertedMeasureOps)[old(len(*allConvertedMeasureOps))].MeasureFunc == sutils.Min && (*allConvertedMeasureOps)[old(len(*allConvertedMeasureOps)) + 1].MeasureFunc == sutils.Max)
+//@ end
+//@ func AddMeasureAggInRunningStatsForLatestOrEarliest
+//@   props C04
+//@   requires m != nil && allReverseIndex != nil && allConvertedMeasureOps != nil && colToIdx != nil
+//@   requires [index-lists-do-not-share-storage] forallkey(k, string, disjoint(colToIdx[k], *allReverseIndex))
+//@   ensures [two-slots-value-then-timestamp] implies(result1 == nil, result0 == idx + 2 && len(*allReverseIndex) == old(len(*allReverseIndex)) + 2 && (*allReverseIndex)[old(len(*allReverseIndex))] == idx && (*allReverseIndex)[old(len(*allReverseIndex)) + 1] == idx + 1)
+//@   ensures [value-then-timestamp-statistics] implies(result1 == nil, len(*allConvertedMeasureOps) == old(len(*allConvertedMeasureOps)) + 2 && (*allConvertedMeasureOps)[old(len(*allConvertedMeasureOps))].MeasureFunc == ite(isLatest, sutils.Latest, sutils.Earliest) && (*allConvertedMeasureOps)[old(len(*allConvertedMeasureOps)) + 1].MeasureFunc == ite(isLatest, sutils.LatestTime, sutils.EarliestTime))
+//@ end
